@@ -188,9 +188,15 @@ struct Stats {
 		f << "\"evaluations\":" << evaluations << ",\n";
 		f << "\"inconclusive\":" << inconclusive << ",\n";
 		f << "\"wall_s\":" << wall_s << ",\n";
+		// at most 200 000 hashes per process are handed to the runner (which unites them across processes); what lies beyond is
+		// counted per process (cases of different processes come from different seeds and practically never coincide)
+		const size_t kMaxHashes = 200000;
+		f << "\"nontrivial_overflow\":" << (nontrivial.size() > kMaxHashes ? nontrivial.size() - kMaxHashes : 0) << ",\n";
 		f << "\"nontrivial_hashes\":[";
 		bool first = true;
+		size_t written = 0;
 		for (auto h : nontrivial) {
+			if (written++ >= kMaxHashes) break;
 			if (!first) f << ",";
 			first = false;
 			f << "\"" << std::hex << h << std::dec << "\"";
